@@ -3,6 +3,48 @@
 HOOK_COMMITS = []   # filled as hook commits are made in /repo
 
 CHECKS = {
+    "C01": dict(
+        category="model_checking",
+        text=('Create.tla without projection: TLC checks the spectrum equals the declarative per-record count for every scenario in the bound and that unselected samples never matter; every behaviour is replayed record by record on site::Reader and end to end on `sfs create` (exact stdout bytes).'),
+        design_ref="DESIGN.md sections 2 and 3 (C01)",
+        note=('Exhaustive inside the scenario bounds of the listed MCCreate_*.cfg; beyond them (more samples, longer streams) nothing is claimed by this check. Trusted: TLC, Q.class, harness file synthesis and comparison.'),
+        technique="TLA+ pipeline state machine (Create.tla) with declarative oracle, TLC exhaustive enumeration, behaviour replay through library and binary",
+    ),
+    "C02": dict(
+        category="model_checking",
+        text=('Create.tla with projection: the three apply paths as coded (exact, projected via the odometer, insufficient) against the declarative hypergeometric contribution for every admissible target; replay on library and binary with both CLI spellings and four precisions.'),
+        design_ref="DESIGN.md sections 2 and 3 (C02)",
+        note=('Exhaustive inside the scenario bounds of the listed MCCreate_*.cfg; beyond them (more samples, longer streams) nothing is claimed by this check. Trusted: TLC, Q.class, harness file synthesis and comparison.'),
+        technique="TLA+ pipeline state machine (Create.tla) with declarative oracle, TLC exhaustive enumeration, behaviour replay through library and binary",
+    ),
+    "C08": dict(
+        category="model_checking",
+        text=('Genotypes.tla + Create.tla: the complete GT alphabet (ploidy 1-3) in selected/unselected columns at every stream position, through the VCF text path and the BCF binary path; classification laws checked by TLC, outcomes replayed.'),
+        design_ref="DESIGN.md sections 2 and 3 (C08)",
+        note=('Exhaustive inside the scenario bounds of the listed MCCreate_*.cfg; beyond them (more samples, longer streams) nothing is claimed by this check. Trusted: TLC, Q.class, harness file synthesis and comparison.'),
+        technique="TLA+ pipeline state machine (Create.tla) with declarative oracle, TLC exhaustive enumeration, behaviour replay through library and binary",
+    ),
+    "C09": dict(
+        category="model_checking",
+        text=('SampleMap.tla + Create.tla: population ids by first appearance; all list/label/column permutations in the bound; TLC checks the transposition relation, replay checks the real output for every permutation and both list syntaxes.'),
+        design_ref="DESIGN.md sections 2 and 3 (C09)",
+        note=('Exhaustive inside the scenario bounds of the listed MCCreate_*.cfg; beyond them (more samples, longer streams) nothing is claimed by this check. Trusted: TLC, Q.class, harness file synthesis and comparison.'),
+        technique="TLA+ pipeline state machine (Create.tla) with declarative oracle, TLC exhaustive enumeration, behaviour replay through library and binary",
+    ),
+    "C10": dict(
+        category="model_checking",
+        text=('Create.tla with faults: conservation (mass + skipped = sites) as a state invariant; strict failure at the first skippable record; all-or-nothing output; fault rows at every stream position; replayed on the binary (exit status, empty stdout, diagnostics naming contig:pos, skip summary).'),
+        design_ref="DESIGN.md sections 2 and 3 (C10)",
+        note=('Exhaustive inside the scenario bounds of the listed MCCreate_*.cfg; beyond them (more samples, longer streams) nothing is claimed by this check. Trusted: TLC, Q.class, harness file synthesis and comparison.'),
+        technique="TLA+ pipeline state machine (Create.tla) with declarative oracle, TLC exhaustive enumeration, behaviour replay through library and binary",
+    ),
+    "C11": dict(
+        category="model_checking",
+        text=('Create.tla keeps the per-record accumulators and the projection scratch index as persistent state with explicit resets (as the code does); additivity and order-freedom are TLC invariants over all histories in the bound; sabotage configs without the resets are rejected by TLC.'),
+        design_ref="DESIGN.md sections 2 and 3 (C11)",
+        note=('Exhaustive inside the scenario bounds of the listed MCCreate_*.cfg; beyond them (more samples, longer streams) nothing is claimed by this check. Trusted: TLC, Q.class, harness file synthesis and comparison.'),
+        technique="TLA+ pipeline state machine (Create.tla) with declarative oracle, TLC exhaustive enumeration, behaviour replay through library and binary",
+    ),
     "C03": dict(
         category="model_checking",
         text=("Project.tla: TLC explores all interleavings of one-chromosome down-sampling steps and checks closed form = "
